@@ -796,7 +796,22 @@ func (g *Engine) opStress(s hx.M) {
 				if rng.Intn(3) == 0 {
 					api.TraceError(le.e, errors.New("x"))
 				}
-				if rng.Intn(3) == 0 {
+				if rng.Intn(5) == 0 {
+					// two goroutines exit the SAME entry at the same instant: it is completed exactly once all the same
+					var both sync.WaitGroup
+					var go2 int32
+					both.Add(1)
+					go func() {
+						defer both.Done()
+						defer func() { recover() }()
+						for atomic.LoadInt32(&go2) == 0 {
+						}
+						le.e.Exit()
+					}()
+					atomic.StoreInt32(&go2, 1)
+					le.e.Exit()
+					both.Wait()
+				} else if rng.Intn(3) == 0 {
 					le.e.Exit(base.WithError(errors.New("y")))
 				} else {
 					le.e.Exit()
